@@ -43,6 +43,16 @@ func (e *Engine) doCall(st *State, fr *Frame, call ssa.CallInstruction, val ssa.
 				}
 			}
 		}
+		// a few standard iterator constructors are replaced by in-package models of the same
+		// behaviour (see load.modelsSource), which the engine then inlines like any other code
+		if f := ci.Static; f != nil && f.Pkg != e.Cfg.Pkg {
+			if mname, ok := map[string]string{"slices.All": "flytsaModelSlicesAll", "slices.Values": "flytsaModelSlicesValues", "maps.All": "flytsaModelMapsAll", "maps.Insert": "flytsaModelMapsInsert"}[CalleeName(f)]; ok {
+				if mf := e.Cfg.Pkg.Func(mname); mf != nil {
+					ci.Static = mf
+					ci.FnTerm = Func(mf.String(), mf)
+				}
+			}
+		}
 		// a method value (x.M stored in a variable, then called) is a closure over a synthetic
 		// wrapper: calling it is calling the method on the bound receiver
 		if f := ci.Static; f != nil && strings.HasPrefix(f.Synthetic, "bound method wrapper") && ci.FnTerm != nil && ci.FnTerm.K == KClosure && len(ci.FnTerm.A) >= 1 {
